@@ -10,21 +10,16 @@ CONSTANTS
   ResetHeights <- MC_ResetHeights
   MaxPub = 1
   MaxImp = 1
-  MaxAck = 1
+  MaxAck = 2
   MaxForeign = 1
   MaxReset = 1
-  MaxCrash = 2
+  MaxCrash = 1
   MinWork = 0
   Controlled = FALSE
 INVARIANTS
   TypeOK
-  LocksConsistent
-  StoredIsAssociated
-  LogsContiguous
   CursorIsMaxOfAcked
   OnlyOwnTopicAcked
-  ReplayExact
-  ReplayQueueCoversExpect
 PROPERTIES
   MC_CursorMonotone
   MC_ForeignTopicRejected
